@@ -26,9 +26,8 @@
 using namespace vf;
 namespace ex = pika::execution::experimental;
 
-using mutex_t = ex::async_rw_mutex<int>;
-using rd_t = mutex_t::read_access_type;
-using rw_t = mutex_t::readwrite_access_type;
+using mutex_int_t = ex::async_rw_mutex<int>;
+using mutex_void_t = ex::async_rw_mutex<void>;    // a separate (duplicated) specialisation: the mutex guards an external resource
 
 struct Req
 {
@@ -45,6 +44,7 @@ struct Case
     int rounds = 300;
     int span = 64;
     std::vector<int> skew0, step;
+    bool void_mutex = false;
 };
 
 static Case decode(tape_t const& tape)
@@ -70,6 +70,7 @@ static Case decode(tape_t const& tape)
         c.skew0.push_back(static_cast<int>(t.below(static_cast<std::uint32_t>(c.span))));
         c.step.push_back(t.pick({1, 0, 3, 7}));
     }
+    c.void_mutex = t.chance(1, 3);
     return c;
 }
 
@@ -77,7 +78,7 @@ static std::string describe(tape_t const& tape)
 {
     Case c = decode(tape);
     std::ostringstream os;
-    os << "{\"os_threads\": " << c.nth << ", \"requests\": [";
+    os << "{\"mutex\": \"" << (c.void_mutex ? "async_rw_mutex<void>" : "async_rw_mutex<int>") << "\", \"os_threads\": " << c.nth << ", \"requests\": [";
     for (std::size_t i = 0; i < c.reqs.size(); ++i)
     {
         auto const& r = c.reqs[i];
@@ -166,7 +167,8 @@ struct Recv
     std::atomic<int>* got;
     void set_value(Wrapper a) && noexcept
     {
-        int v = a.get();
+        int v = 0;
+        if constexpr (requires { a.get(); }) v = a.get(); else v = w->expected_value[static_cast<std::size_t>(i)];
         w->on_grant(i, v);
         slot->emplace(std::move(a));
         got->store(1, std::memory_order_release);
@@ -180,9 +182,12 @@ static inline void spin(int n)
     for (volatile int k = 0; k < n; k = k + 1) {}
 }
 
-static Outcome run(tape_t const& tape)
+template <typename mutex_t>
+static Outcome run_with(Case const& c)
 {
-    Case c = decode(tape);
+    using rd_t = typename mutex_t::read_access_type;
+    using rw_t = typename mutex_t::readwrite_access_type;
+    constexpr bool has_value = std::is_same_v<mutex_t, mutex_int_t>;
     std::size_t n = c.reqs.size();
     auto* sp = new Shared();    // (leaked when a thread is stuck)
     Shared& s = *sp;
@@ -192,7 +197,8 @@ static Outcome run(tape_t const& tape)
     {
         auto* rp = new Round(c, s, round);
         Round& R = *rp;
-        auto* mtx = new mutex_t(0);
+        mutex_t* mtx = nullptr;
+        if constexpr (has_value) mtx = new mutex_t(0); else mtx = new mutex_t();
         using rsend_t = decltype(std::declval<mutex_t&>().read());
         using wsend_t = decltype(std::declval<mutex_t&>().readwrite());
         auto* rsend = new std::vector<std::optional<rsend_t>>(n);
@@ -248,7 +254,7 @@ static Outcome run(tape_t const& tape)
                         (*wsend)[i].reset();
                         ex::start(os);
                         if (!wait_grant()) { lost->store(static_cast<int>(i)); finished->fetch_add(1); for (;;) std::this_thread::sleep_for(std::chrono::seconds(1)); }    // parked: the operation state may still be referenced by the chain
-                        slot->get() += 1;
+                        if constexpr (has_value) slot->get() += 1;
                         spin(r.hold);
                         R.before_release(static_cast<int>(i));
                         slot.reset();
@@ -267,7 +273,8 @@ static Outcome run(tape_t const& tape)
                         {
                             slot.reset();    // the copy keeps the access alive
                             spin(r.hold);
-                            if (wcopy->get() != R.expected_value[i]) s.fail("stale_value", R.where(static_cast<int>(i)) + "copied read wrapper sees " + std::to_string(wcopy->get()) + " after the original was released");
+                            if constexpr (has_value)
+                                if (wcopy->get() != R.expected_value[i]) s.fail("stale_value", R.where(static_cast<int>(i)) + "copied read wrapper sees " + std::to_string(wcopy->get()) + " after the original was released");
                             R.before_release(static_cast<int>(i));
                             wcopy.reset();
                         }
@@ -317,8 +324,15 @@ static Outcome run(tape_t const& tape)
     if (multi_read) out.tags.push_back("has:read_group>=2");
     if (drop) out.tags.push_back("has:unstarted_drop");
     out.tags.push_back("groups:" + std::to_string(std::min(ngroups, 6)));
+    out.tags.push_back(has_value ? "mutex:async_rw_mutex<int>" : "mutex:async_rw_mutex<void>");
     if (!stuck) delete sp;
     return out;
+}
+
+static Outcome run(tape_t const& tape)
+{
+    Case c = decode(tape);
+    return c.void_mutex ? run_with<mutex_void_t>(c) : run_with<mutex_int_t>(c);
 }
 
 int main(int argc, char** argv)
